@@ -238,6 +238,9 @@ pub enum Op {
     /// commit succeeded: index into the commit history
     Committed { snapshot: usize },
     Took(EventView),
+    /// right after the consumer took an event (the generator is suspended in that emission): a shared mutex handed to
+    /// the builder (app set, storage) was still locked by the state machine
+    LockHeldAtEmission { which: &'static str },
     StreamEnd,
     ControlIssue { req: usize, handle: usize, on_demand: bool },
     ControlReply { req: usize, reply: &'static str },
